@@ -405,9 +405,18 @@ class Gen:
             roots["mutation"] = r.choice(["Mutation", "M"]) if explicit else "Mutation"
         if r.random() < 0.25:
             roots["subscription"] = r.choice(["Subscription", "Sub"]) if explicit else "Subscription"
-        ob_names = ob_names + [n for n in roots.values()]
-        if explicit and r.random() < 0.3 and "Mutation" not in ob_names:
-            ob_names.append("Mutation")       # default-named type that is not a root
+        if explicit and r.random() < 0.45:
+            # any partial injective assignment of the default names (and custom ones) to the three slots: a root
+            # may sit under the default name of ANOTHER operation whose own slot is empty or filled differently
+            # (`schema { query: Query subscription: Mutation }`, seeded C12-i)
+            names = ["Query", "Mutation", "Subscription", r.choice(["RootQuery", "Q"]), r.choice(["M", "Sub"])]
+            slots = ["query"] + [o for o in ("mutation", "subscription") if r.random() < 0.5]
+            roots = dict(zip(slots, r.sample(names, len(slots))))
+        ob_names = ob_names + [n for n in roots.values() if n not in ob_names]
+        if explicit and r.random() < 0.3:
+            n = r.choice(["Mutation", "Mutation", "Subscription", "Query"])
+            if n not in ob_names:
+                ob_names.append(n)       # default-named type that is not a root
         # ordinary types whose names differ from a default root name only by case
         # (or by a suffix): never roots, with or without a schema definition
         if r.random() < 0.3:
@@ -690,7 +699,7 @@ def invalidate(spec, rng):
               "unknown-arg-type", "unknown-interface", "unknown-union-member", "unknown-input-field-type",
               "unknown-root", "unknown-directive-arg-type", "ext-undefined", "ext-wrong-kind", "ext-dup-field",
               "ext-dup-enum-value", "ext-dup-union-member", "ext-dup-interface", "ext-dup-input-field",
-              "ext-dup-operation", "dup-field", "dup-arg", "dup-input-field", "dup-enum-value",
+              "ext-dup-operation", "ext-dup-new-operation", "dup-field", "dup-arg", "dup-input-field", "dup-enum-value",
               "implements-object", "implements-nonfields", "union-member-non-object", "output-in-input-position",
               "output-in-input-position-default", "input-in-output-position", "bad-default-kind",
               "bad-default-enum", "bad-default-null", "bad-default-missing-field", "bad-default-int-range",
@@ -799,6 +808,27 @@ def invalidate(spec, rng):
         kind = K_EXT
     elif label == "ext-dup-operation":
         extra.append("extend schema { query: %s }" % s["roots"]["query"])
+        kind = K_EXT
+    elif label == "ext-dup-new-operation":
+        # a root operation the base schema does NOT define, given twice by extensions: by two `extend schema`
+        # blocks or twice in one block, same or different types, anywhere in the document (seeded C11-i)
+        objs = [t["name"] for t in s["types"] if t["kind"] == "object"]
+        s["explicit_schema"] = True
+        ops = ["mutation", "subscription"]
+        r.shuffle(ops)
+        keep = r.choice([0, 1])        # the base defines query only, or query and one more
+        for o in ops[:2 - keep]:
+            s["roots"].pop(o, None)
+        op = ops[0]
+        m1, m2 = r.choice(objs), r.choice(objs)
+        form = r.choice(["two-blocks", "two-blocks", "one-block", "three"])
+        if form == "one-block":
+            extra.append("extend schema {\n  %s: %s\n  %s: %s\n}" % (op, m1, op, m2))
+        else:
+            extra.append("extend schema { %s: %s }" % (op, m1))
+            extra.append("extend schema { %s: %s }" % (op, m2))
+            if form == "three" and not keep:
+                extra.append("extend schema { %s: %s }" % (ops[1], r.choice(objs)))
         kind = K_EXT
     elif label == "ext-unknown-field-type":
         extra.append("extend type %s { brokenExt: Missing }" % obj["name"])
@@ -922,9 +952,13 @@ def invalidate(spec, rng):
         if not cands:
             return None
         t = r.choice(cands)
-        iface = [x for x in s["types"] if x["name"] == r.choice(t["ifaces"])][0]
+        iname = r.choice(t["ifaces"])
+        iface = [x for x in s["types"] if x["name"] == iname][0]
         f = r.choice(iface["fields"])
-        g = [x for x in t["fields"] if x["name"] == f["name"]][0]
+        gs = [x for x in t["fields"] if x["name"] == f["name"]]
+        if not gs:
+            return None
+        g = gs[0]
         sup = supertype_variants(f["type"])
         if sup and r.random() < 0.6:
             g["type"] = with_core(r.choice(sup), type_core(g["type"]))
